@@ -105,6 +105,7 @@ class Check:
         self.exhaustive = None
         self.replay_file = replay_file
         self.budget_scale = 1 if tier == "quick" else int(os.environ.get("VERIF_THOROUGH_SCALE", "12"))
+        self.boost = 1   # raised by harness.fingerprint.direct when the modelled source changed (change-directed search)
 
     # ---- counting ---------------------------------------------------------------------------------------------
     def case(self, desc, nontrivial=True, sample=True):
@@ -118,6 +119,10 @@ class Check:
             self.hashes.add(h)
             if sample and len(self.samples) < 4:
                 self.samples.append(desc)
+
+    def count(self, quick, thorough):
+        """number of cases for this tier, multiplied when the modelled code changed"""
+        return (quick if self.tier == "quick" else thorough) * self.boost
 
     def stat(self, key, n=1):
         self.stats[key] += n
